@@ -1,11 +1,13 @@
 mod c20;
+mod c20e2e;
 
 fn main() {
     let args: Vec<String> = std::env::args().collect();
     match args.get(1).map(|s| s.as_str()) {
         Some("c20") => c20::main(&args[2..]),
+        Some("c20e2e") => c20e2e::main(&args[2..]),
         _ => {
-            eprintln!("usage: h_nexus <c20> ...");
+            eprintln!("usage: h_nexus <c20|c20e2e> ...");
             std::process::exit(2);
         }
     }
